@@ -56,8 +56,24 @@ const (
 
 var opNames = []string{"Close", "Direct(c1)", "Direct(c2)", "Direct(c1,denied)", "Next", "Uncache(c1)"}
 
+// reentrantCallback: the allow filter, a function the caller supplies, itself
+// calls the receiver (un-caches an unrelated CID) before answering; with it off
+// the filter is a plain predicate.
+var (
+	reentrantCallback bool
+	seqKeyPrefix      = "seq|"
+	c3                = fixture.Cid("c16-three", cid.DagJSON)
+)
+
 func newReceiver() *announce.Receiver {
-	r, err := announce.NewReceiver(nil, "", announce.WithAllowPeer(func(p peer.ID) bool { return p != denied }))
+	var r *announce.Receiver
+	reenter := reentrantCallback
+	r, err := announce.NewReceiver(nil, "", announce.WithAllowPeer(func(p peer.ID) bool {
+		if reenter {
+			r.UncacheCid(c3)
+		}
+		return p != denied
+	}))
 	if err != nil {
 		panic(err)
 	}
@@ -228,7 +244,7 @@ func ambiguous(seq []op) bool {
 }
 
 func runSequence(t *testing.T, r *vp.Recorder, seq []op) {
-	key := "seq|" + seqName(seq)
+	key := seqKeyPrefix + seqName(seq)
 	if !r.Mine(key) {
 		return
 	}
@@ -643,7 +659,7 @@ func pubsubScenario(extra []string) *sched.Scenario {
 
 func TestCheck(t *testing.T) {
 	r := vp.New("C16", "model_checking",
-		"(H) every sequence of <= N operations over {Close, Direct(c1), Direct(c2), Direct(c1) from a denied peer, Next, UncacheCid(c1)}, each operation started in its own goroutine in a synctest bubble and observed at quiescence as returned(value) / blocked, compared after every step with a reference model of the receiver (closed flag, one-slot queue, duplicate set, blocked callers); (S) every set of 2 threads x 1-2 operations and 3 threads x 1 operation containing at least one Close (3 threads x <=2 operations in the thorough tier), all interleavings at the scheduling points of the instrumented announce package up to the preemption bound. states = distinct decision states / sequences; transitions = scheduling steps / operations; traces = executions of the real receiver.",
+		"(H) every sequence of <= N operations over {Close, Direct(c1), Direct(c2), Direct(c1) from a denied peer, Next, UncacheCid(c1)}, each operation started in its own goroutine in a synctest bubble and observed at quiescence as returned(value) / blocked, compared after every step with a reference model of the receiver (closed flag, one-slot queue, duplicate set, blocked callers), and the same one operation shallower with an allow filter that itself calls the receiver (UncacheCid of an unrelated CID) before answering; (S) every set of 2 threads x 1-2 operations and 3 threads x 1 operation containing at least one Close (3 threads x <=2 operations in the thorough tier), all interleavings at the scheduling points of the instrumented announce package up to the preemption bound. states = distinct decision states / sequences; transitions = scheduling steps / operations; traces = executions of the real receiver.",
 		"(H) and (S): receiver without pubsub (nil host); (P): the receiver with a gossipsub topic on one transport-less libp2p host, a thread publishing one announcement, so that the watcher goroutine takes part: publish || Close, optionally || UncacheCid / Next / a second Close / Direct, the Direct variants also with WithResend(true) (direct announcements republished on a topic that has no other subscriber); every call returns and no receiver goroutine is left. Sequences in which Go itself may legally choose between two answers (Next after Close with a queued announcement, two Direct calls blocked at once) are skipped in (H) and accepted either way in (S)",
 		"instrumented select statements try their cases in source order (a legal restriction of Go's choice)",
 	)
@@ -660,20 +676,30 @@ func TestCheck(t *testing.T) {
 	r.Bounds(map[string]any{"sequence_depth": depth, "preemption_bound": bound})
 
 	// (H)
-	if !r.Replaying() || strings.HasPrefix(r.ReplayKey(), "seq|") {
+	if !r.Replaying() || strings.HasPrefix(r.ReplayKey(), "seq|") || strings.HasPrefix(r.ReplayKey(), "reentrant-filter|seq|") {
+		hdepth := depth
 		var rec func(seq []op)
 		rec = func(seq []op) {
 			if len(seq) > 0 {
 				runSequence(t, r, seq)
 			}
-			if len(seq) == depth {
+			if len(seq) == hdepth {
 				return
 			}
 			for o := op(0); o < nOps; o++ {
 				rec(append(seq[:len(seq):len(seq)], o))
 			}
 		}
-		rec(nil)
+		if !r.Replaying() || strings.HasPrefix(r.ReplayKey(), "seq|") {
+			rec(nil)
+		}
+		// once more, one operation shallower, with an allow filter that calls
+		// back into the receiver
+		if !r.Replaying() || strings.HasPrefix(r.ReplayKey(), "reentrant-filter|seq|") {
+			reentrantCallback, seqKeyPrefix, hdepth = true, "reentrant-filter|seq|", depth-1
+			rec(nil)
+			reentrantCallback, seqKeyPrefix = false, "seq|"
+		}
 	}
 
 	// (S)
